@@ -20,6 +20,13 @@ Sessions   : the same matrix on ONE handle that has already read the undamaged t
              are unchanged -- C14_history_independent: the outcome of a read depends only on the store at the time
              of the read -- so any state a handle carries between reads (a verified-files cache, cached manifests,
              a remembered metadata version) shows up as a concrete same-handle:... violation.
+Read again : ONE long-lived handle, the damage in place, the nine reads (API x verify, order rotating): from the first
+             one that RAISES on, each is a read after a read that raised and must itself raise or return the complete
+             answer (a reader that keeps what it had gathered when it failed -- a partly filled file listing, a
+             half-built cache -- returns a subset here); then the failure clears (files restored, no fault) and the
+             nine reads run again through the same handle: each raises or returns the complete answer.  Outcome,
+             trace and yielded prefix of every such read are also compared with the model's read_current on the store
+             of that moment (read_current_again_after_raise).
 Mid-call   : the store changes DURING a read: the damage is applied when the k-th storage operation on the target file
              has finished, for every k the code under test performs in that call (a re-read of a file is a new slot).
              The call must raise or return the answer of the table as it was; on a checksummed data file with
@@ -45,28 +52,38 @@ from typing import Any, Dict, List, Optional, Tuple
 from harness.lib import coqbuild
 
 LEVEL = "proof"
-THEOREMS = ["C14_fail_closed", "C14_never_partial", "C14_not_empty", "C14_checksum", "C14_untouched",
+THEOREMS = ["C14_fail_closed", "C14_never_partial", "C14_never_partial_of_served_version", "C14_not_empty_partial",
+            "C14_not_empty_of_served_version", "C14_checksum", "C14_checksum_by_default", "C14_untouched",
             "C14_row_count_metadata_only", "C14_history_independent", "C14_checksum_survives_history", "C14_no_check_use_gap", "C14_list_fields_without_read_meaning",
             "C14_recovery_listing_fails_closed", "C14_batched_guard_complete", "C14_healthy_ok",
-            "C14_fail_closed_full_refuted"]
+            "C14_fail_closed_full_refuted", "C14_not_empty_full_refuted"]
 REQ = ["DS.Gen.GenRead", "DS.Model.Read"]
 KNOWN_KEY = "current-metadata-file-deleted-serves-previous-version"
 
 MANIFEST_ENTRY = {
-    "level_text": "C14_fail_closed / C14_never_partial / C14_not_empty / C14_checksum / C14_untouched (+ C14_healthy_ok, "
-                  "C14_fail_closed_full_refuted) proved in Coq for every store (any number of damaged files), every "
-                  "parser behaviour, every read API and option, over a model of the read pipeline whose Avro-fallback "
-                  "exception classes are regenerated from file_manager.py on every run and whose call order is pinned "
-                  "by golden ASTs of 25 functions; the model's outcome, storage-call trace and generator prefix are "
-                  "compared with the real library on every reachable file x damage class x API x verify; "
+    "level_text": "C14_fail_closed / C14_never_partial / C14_not_empty_partial / C14_checksum (+ C14_checksum_by_default over the "
+                  "regenerated default) / C14_untouched (+ C14_healthy_ok) proved in Coq for every store (any number of damaged "
+                  "files), every parser behaviour, every read API and option, over a model of the read pipeline whose Avro-fallback "
+                  "exception classes and verification default are regenerated from the source on every run and whose call order is "
+                  "pinned by golden ASTs of 25 functions; 'the current snapshot' of the statements is the one of the metadata file the "
+                  "POINTER names (spec_meta, no recovery); what holds of whichever version the code serves is stated separately "
+                  "(C14_never_partial_of_served_version, C14_not_empty_of_served_version); the model's outcome, storage-call trace "
+                  "and generator prefix are compared with the real library on every reachable file x damage class x API x verify; "
                   "implementation-only oracles search for a read that returns although a touched file is damaged, "
-                  "both on fresh handles and on a handle that has already read the undamaged table (same-handle sessions: "
-                  "read, damage, read again; C14_history_independent), on tables whose history contains deletes / rewrites "
-                  "(C14_checksum_survives_history) and with the damage applied DURING the call after each storage operation "
-                  "on the target file (C14_no_check_use_gap)",
-    "level_note": "C14_fail_closed excludes one case, kept visible as C14_fail_closed_full + _refuted: the current "
-                  "metadata file deleted while the pointer names it (refresh() recovers the previous version, as C10 "
-                  "demands) -- known finding " + KNOWN_KEY + ". Hypothesis json_not_avro (bytes the JSON fallback "
+                  "on fresh handles, on a handle that has already read the undamaged table (read, damage, read again), on a handle "
+                  "on which a read has already RAISED (damage, read, read again with the damage in place and after it has cleared; "
+                  "C14_history_independent), on tables whose history contains deletes / rewrites (C14_checksum_survives_history) and "
+                  "with the damage applied DURING the call after each storage operation on the target file (C14_no_check_use_gap)",
+    "level_note": "PARTIAL in one case, kept visible as C14_fail_closed_full / C14_not_empty_full (Definitions) + their _refuted "
+                  "theorems: the current metadata file deleted while the pointer names it -- refresh() recovers the previous version "
+                  "(as C10 demands) and every API returns its rows; on a table with ONE commit that version is v0 and the broken "
+                  "table is reported as an EMPTY one (scan() = [], row_count() = 0). Known finding " + KNOWN_KEY + ". "
+                  "C14_fail_closed excludes that case, C14_not_empty_partial assumes the pointer does not name a missing file, "
+                  "C14_never_partial assumes the pointer's file is there and parses. C14_checksum needs a recorded checksum "
+                  "(caller-built DataFile without one: outside). C14_history_independent and C14_list_fields_without_read_meaning "
+                  "hold by construction of the model (a handle has no read state; only the manifest path of a list entry is "
+                  "projected); the same-handle and field-edit correspondences are what tie them to the code. "
+                  "Hypothesis json_not_avro (bytes the JSON fallback "
                   "accepts make fastavro raise a fallback class) is checked on every byte string of every run. "
                   "Filters/pruning are outside the model (C12/C13); a match-all filter is exercised by the oracle only. "
                   "trusted: Coq kernel; translator/gen_read.py; the harness; SHA-256 collision-freedom on the byte "
@@ -1500,8 +1517,13 @@ def run_table(ctx, path: str, shape: List[List[int]], tag: str, file_limit: Opti
                                           dict(case, got=impl, expect="corrupt"))
                     elif role == "meta" and dmg["class"] == "absent" and impl["ok"]:
                         # with or without a pointer: the newest metadata file is gone and the previous version is served
-                        ctx.violation(KNOWN_KEY + f":{api}" + (":same-handle" if session else ""), f"current metadata file deleted: {api}(verify={verify}) returned "
-                                      f"{impl.get('rows', impl.get('count'))} instead of raising (undamaged answer has {len(healthy_rows)} rows)",
+                        empty = impl.get("rows", impl.get("count")) in ([], 0) and bool(healthy_rows)
+                        if empty:
+                            ctx.stats["known_finding_broken_table_reported_as_empty"] = ctx.stats.get("known_finding_broken_table_reported_as_empty", 0) + 1
+                        ctx.violation(KNOWN_KEY + f":{api}" + (":same-handle" if session else "") + (":reported-as-empty" if empty else ""),
+                                      f"current metadata file deleted: {api}(verify={verify}) returned "
+                                      f"{impl.get('rows', impl.get('count'))} instead of raising (undamaged answer has {len(healthy_rows)} rows)"
+                                      + (" -- the recovery scan settled on v0: a broken table reported as an EMPTY one" if empty else ""),
                                       dict(case, got=impl))
                     elif in_scope and touched and dmg["class"] == "transient" and answer_ok and impl["ok"]:
                         # the failing call was retried through the other reader and the retry read everything: complete
@@ -1902,6 +1924,181 @@ def oracle_outage(ctx, path: str, shape: List[Any], variant: Optional[str], tag:
     st[tag] = {"calls": n, "outage_hit_a_storage_call": fired}
 
 
+# ====================================================================================== one handle: reading again after a read that raised
+ALL_READS: List[Tuple[str, bool]] = [(a, v) for a in APIS for v in ((True, False) if a != "RowCount" else (True,))]
+
+
+def damage_scope(inv: "Inventory", p: str, role: str, dmg: Dict[str, Any]) -> Tuple[bool, bool]:
+    """(inside the property: absent / bytes no parser of the role accepts / transient,
+        a checksummed data file whose bytes changed: verification must say corrupt)"""
+    new_bytes = dmg["writes"].get(p)
+    in_scope = (dmg["class"] in ("absent", "transient")
+                or (dmg["class"] in ("truncate", "replace", "flip") and unparseable(role, new_bytes)))
+    data_changed = (role == "data" and dmg["class"] in ("truncate", "replace", "flip", "swap")
+                    and new_bytes != inv.files[p] and bool(inv.ever_checksummed.get(p)))
+    return in_scope, data_changed
+
+
+def reread_damages(inv: "Inventory", p: str, role: str, rng: random.Random, tier: str) -> List[Dict[str, Any]]:
+    out = []
+    for d in damages_for(inv, p, "quick", rng):
+        if (d["class"] == "transient" or d["name"] in ("delete", "truncate@1") or d["name"].startswith("random:")
+                or (role == "data" and (d["class"] == "swap" or d.get("value_flip")))
+                or (tier == "thorough" and d.get("structural"))):
+            out.append(d)
+    return out
+
+
+def run_reread_session(path: str, inv: "Inventory", dmg: Dict[str, Any], reads: List[List[Any]]) -> List[Dict[str, Any]]:
+    """ONE long-lived handle (opened on the undamaged table), a sequence of reads [api, verify, state]:
+    state "damaged" = the damage is in place during that read (a transient fault fires again at its call site),
+    state "cleared" = the files are as they were and nothing fails.  Per read: the outcome, the storage calls, whether
+    the damaged file was accessed, and whether an EARLIER read through this handle raised."""
+    t = open_handle(path)
+    out: List[Dict[str, Any]] = []
+    raised = damaged_now = False
+    try:
+        for api, verify, state in reads:
+            if state == "damaged" and not damaged_now:
+                apply_damage(inv, dmg)
+                damaged_now = True
+            elif state != "damaged" and damaged_now:
+                undo_damage(inv, dmg)
+                damaged_now = False
+            ins = Instr(t, dmg.get("fault") if state == "damaged" else None)
+            try:
+                impl = run_api(t, api, verify)
+            finally:
+                ins.restore()
+            touched = state == "damaged" and (ins.fired if dmg["class"] == "transient" else any(x[0] in dmg["writes"] for x in ins.trace))
+            out.append({"impl": impl, "trace": list(ins.trace), "touched": touched, "raised_before": raised})
+            raised = raised or not impl["ok"]
+    finally:
+        if damaged_now:
+            undo_damage(inv, dmg)
+    return out
+
+
+def judge_reread(inv: "Inventory", role: str, p: str, dmg: Dict[str, Any], api: str, verify: bool, state: str,
+                 impl: Dict[str, Any], touched: bool) -> Optional[Tuple[str, str]]:
+    """A read through a handle on which an earlier read raised.  Implementation-only judgement, the same as for a
+    first read: while the damage is in place the call raises (a retried transient failure may instead return the
+    COMPLETE answer; a file the call does not access leaves the answer complete); once the failure has cleared the
+    call raises or returns the complete answer.  Never a subset, never an empty table."""
+    healthy = len(inv.rows) if api == "RowCount" else inv.rows
+    got = impl.get("count") if api == "RowCount" else impl.get("rows")
+    if impl.get("hung"):
+        return ("library-call-hung", impl["msg"])
+    if state != "damaged":
+        if impl["ok"] and got != healthy:
+            return ("partial-when-cleared", f"returned {got} although nothing is damaged any more; the complete answer is {healthy}")
+        return None
+    in_scope, data_changed = damage_scope(inv, p, role, dmg)
+    if data_changed and verify and api != "RowCount":
+        if impl["ok"] or impl["kind"] != "ECorrupt":
+            return ("checksum-not-detected", ("returned " + str(got)) if impl["ok"] else ("raised " + impl["exc"] + ", not CorruptDataError"))
+        return None
+    if not impl["ok"]:
+        return None
+    if role == "meta" and dmg["class"] == "absent":
+        return ("known", f"returned {got} instead of raising (undamaged answer: {healthy})")
+    if not in_scope:
+        return None                         # damage every parser accepts: outside the property
+    if got != healthy:
+        return ("fail-open", f"returned {got} instead of raising; the complete answer is {healthy}")
+    if touched and dmg["class"] != "transient":
+        return ("fail-open", f"accessed the damaged file and still returned {got}")
+    return None
+
+
+def oracle_reread(ctx, path: str, shape: List[Any], variant: Optional[str], tag: str) -> None:
+    """Every reachable file x damage inside the property x ONE long-lived handle: the nine reads (API x verify, the
+    order rotating with the damage) with the damage in place -- from the first one that raises on, each is a read
+    AFTER a read that raised -- then the same nine reads after the failure has cleared (files restored, no fault).
+    Each is judged by the implementation-only rule above, and outcome / trace / yielded prefix are compared with the
+    model's read_current on the store as it is at that moment (read_session: a handle carries no read state)."""
+    import time
+    t_start = time.time()
+    inv = make_table(path, shape, variant)
+    if inv.broken:
+        return
+    mc = ModelCtx(inv)
+    rec_healthy = recovered_by_scan(inv)
+    targets = inv.reachable() + ([(HINT_PATH, "pointer")] if HINT_PATH in inv.roles else [])
+    cases: List[Dict[str, Any]] = []
+    reported = set()
+    n_sessions = n_reads = n_judged = 0
+    for p, role in targets:
+        for dmg in reread_damages(inv, p, role, ctx.rng, ctx.tier):
+            in_scope, data_changed = damage_scope(inv, p, role, dmg)
+            if not (in_scope or data_changed):
+                continue
+            rot = n_sessions % len(ALL_READS)
+            seq = ALL_READS[rot:] + ALL_READS[:rot]
+            reads = [[a, v, "damaged"] for a, v in seq + seq[:1]] + [[a, v, "cleared"] for a, v in seq]
+            rec_dmg = rec_healthy
+            if dmg["writes"]:
+                apply_damage(inv, dmg)
+                try:
+                    rec_dmg = recovered_by_scan(inv)
+                finally:
+                    undo_damage(inv, dmg)
+            index = [q for q, r_ in inv.reachable() if r_ == role].index(p) if role != "pointer" else 0
+            base = {"table": tag, "shape": shape, "variant": variant, "role": role, "index": index, "damage": dmg["name"]}
+            CURRENT_CASE.clear()
+            CURRENT_CASE.update(dict(base, reread=True))
+            results = run_reread_session(path, inv, dmg, reads)
+            n_sessions += 1
+            n_reads += len(reads)
+            first_raise = next((i for i, r in enumerate(results) if not r["impl"]["ok"]), None)
+            for i, ((api, verify, state), res) in enumerate(zip(reads, results)):
+                if not res["raised_before"]:
+                    continue                # no read has raised on this handle yet: an ordinary read (run_table judges those)
+                n_judged += 1
+                ctx.count(1, ("reread", tag, p, dmg["name"], api, verify, state))
+                case = dict(base, api=api, verify=verify, expect="reread", reread={"state": state, "before": reads[:i]})
+                verdict = judge_reread(inv, role, p, dmg, api, verify, state, res["impl"], res["touched"])
+                if verdict:
+                    key = (KNOWN_KEY + f":{api}:read-again" if verdict[0] == "known"
+                           else f"read-again:{verdict[0]}:{role}:{dmg['class']}:{api}")
+                    if key not in reported:
+                        reported.add(key)
+                        # the shortest session that still shows it: the first read that raised, then this read
+                        short = [reads[first_raise]]
+                        r2 = run_reread_session(path, inv, dmg, short + [[api, verify, state]])[-1]
+                        if r2["raised_before"] and judge_reread(inv, role, p, dmg, api, verify, state, r2["impl"], r2["touched"]):
+                            case = dict(case, reread={"state": state, "before": short}, got=r2["impl"])
+                    prior = ", ".join(f"{a}(verify={v}){' [damaged]' if s_ == 'damaged' else ' [cleared]'}" for a, v, s_ in case["reread"]["before"])
+                    ctx.violation(key, f"one handle, {role} file {dmg['name']}: after the reads {prior} (at least one raised), "
+                                       f"{api}(verify={verify}) with the damage {'still in place' if state == 'damaged' else 'gone'}: {verdict[1]}",
+                                  dict({"got": res["impl"]}, **case))
+                if state == "damaged":
+                    expr, late = model_expr(mc, dmg, rec_dmg, api, verify)
+                else:
+                    expr, late = model_expr(mc, {"writes": {}}, rec_healthy, api, verify)
+                cases.append({"case": dict(case, reread={"state": state, "position": i}), "impl": res["impl"], "trace": res["trace"], "expr": expr, "late": late})
+    ctx.stats.setdefault("read_again_after_raise", {})[tag] = {"handles": n_sessions, "reads": n_reads, "reads_after_a_raise": n_judged}
+    t_impl = time.time()
+    exprs = list(dict.fromkeys(c["expr"] for c in cases))
+    try:
+        vals = dict(zip(exprs, coqbuild.coq_eval(REQ, exprs, preamble=preamble(mc), chunk=40)))
+    except RuntimeError as e:
+        ctx.proof_problems.append(f"model evaluation failed (read again after a raise, {tag}): " + str(e)[:600])
+        return
+    ctx.stats.setdefault("timing_s", {})[tag] = {"cases": len(cases), "distinct_model_terms": len(exprs), "impl_and_oracle": round(t_impl - t_start, 1),
+                                                 "model_eval": round(time.time() - t_impl, 1)}
+    bad = []
+    for c in cases:
+        why = compare(mc, c["case"]["api"], c["impl"], c["trace"], parse_model(vals[c["expr"]]), c["late"])
+        if why:
+            d = dict(c["case"], why=why)
+            if c["case"]["role"] == "meta" and c["case"]["damage"] == "delete":
+                d["known_key"] = KNOWN_KEY
+            bad.append(d)
+    ctx.correspondence("read_current_again_after_raise", len(cases), bad)
+
+
+
 # ====================================================================================== driver
 def run(ctx) -> None:
     logging.disable(logging.CRITICAL)
@@ -1909,7 +2106,9 @@ def run(ctx) -> None:
                 "{delete, truncate at 0/1/mid/end-1 + every structural boundary (+-1) + sampled offsets, random bytes, b'{}', text, "
                 "byte flips at sampled and structural offsets, swap with a sibling of the same kind, transient OSError at every call "
                 "site incl. mid-stream} x {scan, scan(parallel=2), scan_batches(2), iter_records, row_count} x verify on/off; "
-                "a case is distinct by (table, file, damage, api, verify)")
+                "a case is distinct by (table, file, damage, api, verify); the same through ONE handle that read the undamaged table "
+                "before the damage, and through ONE handle on which an earlier read RAISED (the nine reads with the damage in place, "
+                "then the nine reads after it has cleared; distinct by (table, file, damage, api, verify, damaged|cleared))")
     ctx.trusted_base += [
         "translator/gen_read.py (exception tuples of the two Avro fallbacks; golden ASTs of 25 read-path functions)",
         "parser outcomes fed to the model are measured with fastavro / json / pyarrow on the same bytes "
@@ -1933,6 +2132,12 @@ def run(ctx) -> None:
     except RuntimeError as e:
         ctx.proof_problems.append("model evaluation failed: " + str(e)[:800])
     meta_plane = frozenset(["meta", "list", "manifest", "pointer"])
+    try:
+        # a table with ONE commit: the version before the current one is v0, the empty table create_table wrote --
+        # where the known finding (current metadata file deleted -> previous version served) reads as an EMPTY table
+        run_table(ctx, os.path.join(ctx.scratch, "one"), [[1]], "one-commit", file_limit=2, reduced=True)
+    except RuntimeError as e:
+        ctx.proof_problems.append("model evaluation failed (one-commit table): " + str(e)[:800])
     try:
         # tables whose history is more than appends: partial deletes (manifest rewritten, survivors carried over),
         # whole-manifest deletes, delete+append in one commit, expired snapshots -- then the same damage matrix
@@ -1960,6 +2165,10 @@ def run(ctx) -> None:
     oracle_fresh_handle(ctx, os.path.join(ctx.scratch, "th"))
     oracle_options(ctx, os.path.join(ctx.scratch, "to"))
     oracle_mid_call(ctx, os.path.join(ctx.scratch, "tm"), [[2, 2], [3]])
+    for i, (shape, variant) in enumerate([([[2, 1], [2], [1]], None)]
+                                         + ([(history_shapes(ctx)[0], None), ([[2, 1], [2], [1]], "json"), ([[2], [1], [1]], "no-pointer")]
+                                            if ctx.tier == "thorough" else [])):
+        oracle_reread(ctx, os.path.join(ctx.scratch, f"tr{i}"), shape, variant, f"read-again:{variant or ('history' if i else 'standard')}")
     for i, (variant, sess) in enumerate([(None, False), ("no-pointer", False), (None, True)]
                                          + ([("bad-pointer", False), ("json", False), ("legacy-pointer-missing-file", False), ("no-pointer", True),
                                              ("dup", False)] if ctx.tier == "thorough" else [])):
@@ -1988,6 +2197,12 @@ def execute_case(case: Dict[str, Any], path: str) -> Optional[Tuple[Dict[str, An
     dmg = damage_by_name(inv, p, case["damage"])
     if dmg is None:
         return None
+    if case.get("reread") is not None:
+        reads = [list(r) for r in case["reread"]["before"]] + [[case["api"], case["verify"], case["reread"]["state"]]]
+        last = run_reread_session(path, inv, dmg, reads)[-1]
+        said = ", then ".join(f"{a}(verify={v}) with the damage {'in place' if s_ == 'damaged' else 'gone'}" for a, v, s_ in reads)
+        return (dict(last["impl"], touched=last["touched"], not_reached=not last["raised_before"]), inv,
+                f"one handle, {case['role']} file {p} {dmg['name']}: {said}; the last of these")
     if case.get("mid_call_after_op") is not None:
         impl, ins = run_mid_call(path, inv, p, dmg, case["mid_call_after_op"], case["api"], case["verify"])
         if not ins.mutated:
@@ -2034,6 +2249,12 @@ def case_fails(case: Dict[str, Any], impl: Dict[str, Any], inv: "Inventory") -> 
         return bool(impl.get("denotation_violated"))
     if case.get("expect") == "outage":
         return judge_outage(inv, case["api"], impl) is not None
+    if case.get("expect") == "reread":
+        files = [HINT_PATH] if case["role"] == "pointer" else [q for q, r in inv.reachable() if r == case["role"]]
+        p = files[min(case.get("index", 0), len(files) - 1)]
+        dmg = damage_by_name(inv, p, case["damage"])
+        return dmg is not None and judge_reread(inv, case["role"], p, dmg, case["api"], case["verify"], case["reread"]["state"],
+                                                impl, bool(impl.get("touched"))) is not None
     if case.get("expect") == "mid-call":
         files = [q for q, r in inv.reachable() if r == case["role"]]
         p = files[min(case.get("index", 0), len(files) - 1)]
@@ -2064,19 +2285,23 @@ def shrink(ctx) -> None:
         with_history = any(isinstance(st, dict) for st in case["shape"])
         candidates = ([[[1, 1], {"delete": [0]}], [[1, 1], {"delete": [1]}], [[1, 1, 1], {"delete": [0]}], [[2, 1], [1], {"delete": [0]}], [[1], {"expire": True}, [1]]]
                       if with_history else [[[1]], [[1], [1]], [[1, 1]], [[2], [1]]])
+        done = False
         for shape in candidates:
-            if size(shape) >= size(case["shape"]):
+            if done or size(shape) >= size(case["shape"]):
                 continue
-            c2 = dict(case, shape=shape, index=0)
-            c2.pop("lost", None)
-            try:
-                r = execute_case(c2, os.path.join(ctx.scratch, "shrink"))
-            except Exception:  # noqa: BLE001
-                r = None
-            if r is not None and case_fails(c2, r[0], r[1]):
-                v["replay"] = dict(c2, shrunk_from=case["shape"], got=r[0])
-                v["what"] += f" -- shrunk to table shape {shape}: got {r[0].get('rows', r[0].get('count', r[0].get('exc')))}"
-                break
+            # the first file of the role, then the file at the recorded position (clamped to the smaller table: its last)
+            for idx in dict.fromkeys([0, case.get("index", 0)]):
+                c2 = dict(case, shape=shape, index=idx)
+                c2.pop("lost", None)
+                try:
+                    r = execute_case(c2, os.path.join(ctx.scratch, "shrink"))
+                except Exception:  # noqa: BLE001
+                    r = None
+                if r is not None and case_fails(c2, r[0], r[1]):
+                    v["replay"] = dict(c2, shrunk_from=case["shape"], got=r[0])
+                    v["what"] += f" -- shrunk to table shape {shape}: got {r[0].get('rows', r[0].get('count', r[0].get('exc')))}"
+                    done = True
+                    break
 
 
 def replay(ctx, payload) -> int:
